@@ -144,6 +144,7 @@ def run_group(gname, s, tier="quick", seed=0, canary=False):
     inv_clauses("mul", [("a", R), ("b", R), ("o", R)], "o")
     inv_clauses("inv", [("a", R), ("o", R)], "o")
     inv_clauses("imul", [("a", R), ("b", R)], "a")
+    inv_clauses("imul_self", [("a", R)], "a")        # x *= x through two views of the same buffer
     inv_clauses("cast_same", [("a", R), ("o", R)], "o")
     inv_clauses("assign", [("a", R), ("o", R)], "o")
     inv_clauses("ident", [("o", R)], "o")
